@@ -1,5 +1,6 @@
 import SieveModel.Lemmas.ClientState
 import SieveModel.Lemmas.Session
+import SieveModel.Lemmas.AuthWrites
 import SieveModel.Generated.ClientMethods
 import SieveModel.Generated.MsConsts
 /-!
@@ -78,5 +79,15 @@ theorem sessions_keep_the_connection_state (ops : List Op) (c : Client) :
     ∃ ws : List Bytes, (runOps c ops).2.writes = c.writes ++ ws.map (fun b => (c.tls, b)) := by
   have h := runOps_keeps ops c
   exact ⟨h.auth, h.tls, h.conn, h.writes⟩
+
+/-- **everything `connect` ever writes**: at most one STARTTLS line in plaintext — only when TLS was asked for — followed by
+    nothing or by the lines of ONE authentication exchange, which travel on the secured channel whenever TLS was asked for.
+    No script command, no second mechanism, no credentials in plaintext after a request for TLS — whatever the server says -/
+theorem connect_complete_write_log (c : Client) (env : ConnEnv) (net : Net) (l p z : Bytes) (useTls : Bool) (m : Option Bytes) :
+    ∃ (pre : List (Bool × Bytes)) (auth : List Bytes),
+      (connect c env net l p z useTls m).2.writes = pre ++ auth.map (fun b => (useTls, b)) ∧
+      (pre = [] ∨ (useTls = true ∧ pre = [(false, commandBytes (sb "STARTTLS") [])])) ∧
+      (auth = [] ∨ ∃ mech, auth = authLines mech l p z) :=
+  connect_write_log c env net l p z useTls m
 
 end C10
